@@ -176,6 +176,7 @@ package combinator
 //@   invariant [pc1] k >= 1 ==> s.result != nil || s.err != nil || parsley.GhostCurtailed
 
 //@ func (s *sequence) parseNext(i int, node parsley.Node, depth int, ctx *parsley.Context, lrc data.IntMap, pos parsley.Pos, merge bool) (done bool)
+//@   flag slow
 //@   ghost_at store#2 when fresh(s.nodes) :: parsley.GhostSpare(array(s.nodes)) = true
 //@   requires seqOK(s, ctx) && seqShape(s) && 0 <= depth && depth <= len(s.nodes) && lookupOf(s.parserLookUp, depth) != nil && i >= 0
 //@   requires validSeqNode(node) && pos <= node.ReaderPos()
